@@ -13,7 +13,7 @@ void run(const char* type) {
     auto vals = flt_values<T>(scaled(big ? 4000000 : 250000), opt().seed);
     SameFp<T> eq;
     const U S = U(1) << (sizeof(T) * 8 - 1);
-    for (int mi = 0; mi < 4; ++mi) {
+    for (int mi = 0; mi < VK_NMODES; ++mi) {
         const int mode = ROUND_MODES[mi];
         fp_set(mode, false);
         std::string sfx = std::string("@") + round_name(mode);
